@@ -1,6 +1,6 @@
 (* C08 — property theorems only: each restates the full statement and is closed by the lemma proved in Proofs/. *)
 From Coq Require Import ZArith List Bool.
-From NPS Require Import ListAux PySlice NumpySem Scatter BuildIdx XorBroadcast View Index Assign Reduce Scan RaOps Heap Hash HashRun BitArr RLE RLEOps RLE2d DataClass RowsSpec AssignSpec MapSpec Denote StructProof SubsetProof RSliceProof NonzeroProof PaddedProof Struct2 Struct2Proof.
+From NPS Require Import ListAux PySlice NumpySem Scatter BuildIdx XorBroadcast View Index Assign Reduce Scan RaOps Heap Hash HashRun BitArr RLE RLEOps RLE2d DataClass RowsSpec AssignSpec MapSpec Denote StructProof SubsetProof RSliceProof RSliceInputs NonzeroProof PaddedProof Struct2 Struct2Proof.
 Import ListNotations.
 Open Scope Z_scope.
 
@@ -54,6 +54,35 @@ Theorem C08_ragged_slice_correct :
        Ok (fr_of_rows (spec_ragged_slice (map (t_row A) T) (map (t_start A) T) (map (t_end A) T))).
 Proof. exact ragged_slice_correct. Qed.
 Print Assumptions C08_ragged_slice_correct.
+
+Theorem C08_ragged_slice_1d_correct :
+  forall A : Type,
+       A ->
+       forall (d : list A) (starts ends : list Z),
+       length starts = length ends ->
+       Forall (within1 (zlen d)) (combine starts ends) ->
+       ra_ragged_slice_1d d starts ends =
+       Ok (fr_of_rows (map (fun se : Z * Z => spec_row A (d, se)) (combine starts ends))).
+Proof. exact ragged_slice_1d_correct. Qed.
+Print Assumptions C08_ragged_slice_1d_correct.
+
+Theorem C08_ragged_slice_2d_is_ragged :
+  forall (A : Type) (M : list (list A)) (w : Z) (starts ends : list Z),
+       Forall (fun r : list A => zlen r = w) M ->
+       ra_ragged_slice_2d M w starts ends = ra_ragged_slice (fr_of_rows M) starts ends.
+Proof. exact ragged_slice_2d_is_ragged. Qed.
+Print Assumptions C08_ragged_slice_2d_is_ragged.
+
+Theorem C08_ragged_slice_2d_correct :
+  forall A : Type,
+       A ->
+       forall (T : list (triple A)) (w : Z),
+       Forall (within A) T ->
+       Forall (fun t : triple A => zlen (t_row A t) = w) T ->
+       ra_ragged_slice_2d (map (t_row A) T) w (map (t_start A) T) (map (t_end A) T) =
+       Ok (fr_of_rows (spec_ragged_slice (map (t_row A) T) (map (t_start A) T) (map (t_end A) T))).
+Proof. exact ragged_slice_2d_correct. Qed.
+Print Assumptions C08_ragged_slice_2d_correct.
 
 Theorem C08_nonzero_correct :
   forall R : list (list Z), ra_nonzero (fr_of_rows R) = spec_nonzero R.
